@@ -88,7 +88,7 @@ Proof.
     - apply HL_CP. apply HL_until; reflexivity.
     - intros n1 n2 Hn. apply HJ_jany_elim. intro m.
       eapply HJ_obindM_cp with (RA := krel) (T1 := jsim MIn).
-      + eapply HJ_conseq; [intros s1 s2 X; exact X | apply (HJ_consume_m KOpenBrace m); discriminate |].
+      + eapply HJ_conseq; [intros s1 s2 X; exact X | apply (HJ_consume_m KOpenBrace m); reflexivity |].
         intros o1 s1 o2 s2 [Ho S]. split; [exact Ho|]. split.
         * intros Hne. destruct o1; [exact S | congruence].
         * intros ->. exact (St_EV _ _ _ S).
@@ -96,7 +96,7 @@ Proof.
         eapply HJ_obindM_cp with (RA := ksim) (T1 := jany).
         * eapply HJ_conseq; [intros s1 s2 X; exact X | apply (HJ_until_in (fun k => tk_eqb k KCloseBrace)); reflexivity |].
           intros o1 s1 o2 s2 [Ho S]. split; [exact Ho|]. split; intros _; [exact S | exact (St_EV _ _ _ S)].
-        * intros q1 q2 Hq. apply HL_CP. eapply HL_bind; [apply HL_bump; discriminate|].
+        * intros q1 q2 Hq. apply HL_CP. eapply HL_bind; [apply HL_bump; reflexivity|].
           intros cb1 cb2 Hcb. apply HL_ret. cbn. split; [exact Hn|]. split; [split; discriminate|].
           rewrite (ksim_existsb_kind (fun k => negb (is_ws_block k)) _ _ Hq).
           destruct (existsb _ q2); cbn; [exact Hq | exact I].
@@ -154,7 +154,7 @@ Lemma HJ_bind_HL {A1 A2 B1 B2} (T T1 : TR) (RA : A1 -> A2 -> Prop) m1 m2 (f1 : A
   HJ (St T) (bind m1 f1) (bind m2 f2) Q.
 Proof. intros Hm Hf. eapply HJ_bind; [exact Hm|]. intros a1 a2 s1 s2 [Ha S]. exact (Hf a1 a2 Ha s1 s2 S). Qed.
 
-Lemma HJ_consume_anyR k : tk_eqb KWs k = false -> is_comment k = false -> k <> KWord ->
+Lemma HJ_consume_anyR k : tk_eqb KWs k = false -> is_comment k = false -> swt k = false ->
   HJ (St anyR) (consume k) (consume k)
      (fun o1 s1 o2 s2 => orel krel o1 o2 /\ (o1 <> None -> St jany s1 s2) /\ (o1 = None -> St anyR s1 s2)).
 Proof.
@@ -182,12 +182,12 @@ Section Step.
   Proof.
     unfold note. unfold HL. eapply HJ_conseq; [intros s1 s2 X; exact X | apply (HL_with_recover anyR jany trel) |].
     - eapply HJ_obindM_cp with (RA := krel) (T1 := jany).
-      + eapply HJ_conseq; [intros s1 s2 X; exact X | apply (HJ_consume_anyR KOpenParen); [reflexivity | reflexivity | discriminate] |].
+      + eapply HJ_conseq; [intros s1 s2 X; exact X | apply (HJ_consume_anyR KOpenParen); [reflexivity | reflexivity | reflexivity] |].
         intros o1 s1 o2 s2 (Ho & H1 & H2). split; [exact Ho|]. split; [exact H1 | intros E; exact (St_EV _ _ _ (H2 E))].
       + intros op1 op2 _. eapply HJ_bind_HL; [apply HN_of, HN_current_offset|]. intros off1 off2 _.
         eapply HJ_obindM_cp with (RA := jany) (T1 := jany).
         * apply HL_CP. apply HL_until; reflexivity.
-        * intros n1 n2 Hn. apply HL_CP. eapply HL_bind; [apply HL_bump; discriminate|]. intros cp1 cp2 _.
+        * intros n1 n2 Hn. apply HL_CP. eapply HL_bind; [apply HL_bump; reflexivity|]. intros cp1 cp2 _.
           eapply HL_bind; [apply HN_of, HN_textM_j; exact Hn|]. intros t1 t2 Ht. apply HL_ret. exact Ht.
         * intros s1 s2 E. apply CP_none. exact E.
       + intros s1 s2 E. apply CP_none. exact E.
@@ -200,12 +200,12 @@ Section Step.
     unfold check_note. eapply HL_bind with (RA := anyrel) (T1 := anyR); [|intros; apply HL_ret; exact I].
     unfold HL. eapply HJ_conseq; [intros s1 s2 X; exact X | apply (HL_with_recover anyR jany (@anyrel unit unit)) |].
     - eapply HJ_obindM_cp with (RA := krel) (T1 := jany).
-      + eapply HJ_conseq; [intros s1 s2 X; exact X | apply (HJ_consume_anyR KOpenParen); [reflexivity | reflexivity | discriminate] |].
+      + eapply HJ_conseq; [intros s1 s2 X; exact X | apply (HJ_consume_anyR KOpenParen); [reflexivity | reflexivity | reflexivity] |].
         intros o1 s1 o2 s2 (Ho & H1 & H2). split; [exact Ho|]. split; [exact H1 | intros E; exact (St_EV _ _ _ (H2 E))].
       + intros op1 op2 _.
         eapply HJ_obindM_cp with (RA := jany) (T1 := jany).
         * apply HL_CP. apply HL_until; reflexivity.
-        * intros n1 n2 _. apply HL_CP. eapply HL_bind; [apply HL_bump; discriminate|]. intros cp1 cp2 _.
+        * intros n1 n2 _. apply HL_CP. eapply HL_bind; [apply HL_bump; reflexivity|]. intros cp1 cp2 _.
           eapply HL_bind with (RA := anyrel) (T1 := jany).
           { destruct (tstart op1 =? 0); [apply HL_panic_l|]. destruct (tstart op2 =? 0); [apply HL_panic_r|]. apply HL_ret. exact I. }
           intros _ _ _. eapply HL_bind; [apply HN_of, HN_warn|]. intros _ _ _. apply HL_ret. exact I.
@@ -231,7 +231,7 @@ Section Step.
   Proof.
     unfold ingredient_p. eapply HJ_bind_HL; [apply HN_of, HN_current_offset|]. intros st1 st2 _.
     eapply HJ_obindM_cp with (RA := krel) (T1 := jany).
-    { apply HL_CP. apply HL_consume. discriminate. }
+    { apply HL_CP. apply HL_consume. reflexivity. }
     2: { intros s1 s2 E. apply CP_none. exact E. }
     intros at1 at2 _. eapply HJ_bind_HL; [apply HN_of, HN_current_offset|]. intros mp1 mp2 _.
     eapply HJ_bind_HL; [apply modifiers_j|]. intros mts1 mts2 Hm.
@@ -261,7 +261,7 @@ Section Step.
   Proof.
     unfold cookware_p. eapply HJ_bind_HL; [apply HN_of, HN_current_offset|]. intros st1 st2 _.
     eapply HJ_obindM_cp with (RA := krel) (T1 := jany).
-    { apply HL_CP. apply HL_consume. discriminate. }
+    { apply HL_CP. apply HL_consume. reflexivity. }
     2: { intros s1 s2 E. apply CP_none. exact E. }
     intros at1 at2 _. eapply HJ_bind_HL; [apply HN_of, HN_current_offset|]. intros mp1 mp2 _.
     eapply HJ_bind_HL; [apply modifiers_j|]. intros mts1 mts2 Hm.
@@ -304,7 +304,7 @@ Section Step.
   Proof.
     unfold timer_p. eapply HJ_bind_HL; [apply HN_of, HN_current_offset|]. intros st1 st2 _.
     eapply HJ_obindM_cp with (RA := krel) (T1 := jany).
-    { apply HL_CP. apply HL_consume. discriminate. }
+    { apply HL_CP. apply HL_consume. reflexivity. }
     2: { intros s1 s2 E. apply CP_none. exact E. }
     intros at1 at2 _. eapply HJ_bind_HL; [apply modifiers_j|]. intros mts1 mts2 Hm.
     eapply HJ_bind_HL; [apply HN_of, HN_current_offset|]. intros no1 no2 _.
